@@ -35,7 +35,7 @@ def c03(tier):
 
 
 def c03_all(tier):
-    return c03(tier) + s2_errors(3, tier)
+    return c03(tier) + s2_errors(3, tier) + fam_mut(3, tier)
 
 
 def c15(tier):
@@ -88,6 +88,7 @@ def s1_parser(harness, done, tier, qn=2, tn=3, sig_extra=True):
     return runs
 
 
+NFAM = 23
 CUT = ["(*github.com/cloudspannerecosystem/memefish.Parser).handleError"]
 EXPR, TYPE, QUERY, STMT = 3, 4, 2, 0
 
@@ -113,18 +114,31 @@ def s2_accepting(prop, tier):
     return runs
 
 
+def fam_mut(prop, tier):
+    """Family sentences with one mutation (truncate / delete / replace by ')') at a symbolic token position."""
+    q = tier == "quick"
+    runs = []
+    for f in range(NFAM):
+        for mut in (0, 1, 2):
+            for wrap in ((1,) if f in (6, 7) else (0,)):
+                bud = 2 if (f in (6, 7) or not q) else 1
+                runs.append(dict(harness="verifHarness_FamMut", args=[prop, f, bud, 2, mut, wrap]))
+    return runs
+
+
 def s2_errors(prop, tier):
     """S2 runs that keep error paths (recovery is the subject)."""
     q = tier == "quick"
     m = 3 if q else 4
     runs = [s2(prop, 0, 5, m, e) for e in (EXPR, TYPE, QUERY, STMT)]
+    runs.append(s2(prop, 0, 6, 2 if q else 3, STMT))
+    runs.append(s2(prop, 0, 6, 2 if q else 3, 5))
     runs.append(s2(prop, 1, 5, m - 1 if q else m, STMT))
     runs.append(s2(prop, 4, 5, m - 1 if q else m, EXPR))
     runs.append(s2(prop, 2, 0, 1, EXPR))
     return runs
 
 
-NFAM = 23
 
 
 def fam(prop, tier, cut=True, budget=None, fams=None):
@@ -185,7 +199,7 @@ def c12(tier):
 
 def c10(tier):
     runs = s1_parser("verifHarness_C10", "C10/bad", tier, sig_extra=False)
-    return runs + s2_errors(10, tier)
+    return runs + s2_errors(10, tier) + fam_mut(10, tier)
 
 
 def c01(tier):
@@ -198,7 +212,7 @@ def c01(tier):
 
 
 def c04(tier):
-    return s1_parser("verifHarness_C04", "C04/done", tier) + s2_errors(4, tier) + fam(4, tier, cut=False)
+    return s1_parser("verifHarness_C04", "C04/done", tier) + s2_errors(4, tier) + fam(4, tier, cut=False) + fam_mut(4, tier)
 
 
 def c05(tier):
@@ -206,7 +220,7 @@ def c05(tier):
 
 
 def c09(tier):
-    return s1_parser("verifHarness_C09", "C09/error", tier) + s2_errors(9, tier)
+    return s1_parser("verifHarness_C09", "C09/error", tier) + s2_errors(9, tier) + fam_mut(9, tier)
 
 
 PROPS = {
